@@ -22,7 +22,10 @@ Definition cat (l : list string) : string := fold_right String.append EmptyStrin
 Definition prog : Type := string * string * fileset.
 Definition comp (v d : string) (fs : fileset) : prog := (v, d, fs).
 
-Inductive run_obs := RO (compiled : bool) (toks : list string) (deptok : string) | RNoFiles.
+(* RO: an invocation that runs / lists / shows help; RC: a -compile invocation - did IT run a
+   target (never), and what the binary it left at the output path prints when it is run *)
+Inductive run_obs := RO (compiled : bool) (toks : list string) (deptok : string) | RNoFiles
+                   | RC (ran_target : bool) (toks : list string) (deptok : string).
 
 (* what an invocation asks the compiled magefile for.  Model/Cache.v's [Run] has no such field:
    Invoke's decision does not look at it; only what the program prints depends on it *)
@@ -65,6 +68,8 @@ Fixpoint run_obs_of (toks : list (string * string)) (listed : list string) (cmds
   | [] => []
   | NoRun _ :: r => run_obs_of toks listed cmds r
   | NoFiles _ :: r => RNoFiles :: run_obs_of toks listed (tl cmds) r
+  | Built _ (_, d, fs) :: r => RC false (printed toks listed CRun fs) d :: run_obs_of toks listed cmds r
+  | RanOutput _ :: r => RC true [] "" :: run_obs_of toks listed cmds r
   | Ran _ c (_, d, fs) :: r => RO c (printed toks listed (hd CRun cmds) fs) d :: run_obs_of toks listed (tl cmds) r
   end.
 
@@ -89,6 +94,7 @@ Definition run_obs_eqb (a b : run_obs) : bool :=
   match a, b with
   | RO c t d, RO c' t' d' => Bool.eqb c c' && list_eqb String.eqb t t' && String.eqb d d'
   | RNoFiles, RNoFiles => true
+  | RC c t d, RC c' t' d' => Bool.eqb c c' && list_eqb String.eqb t t' && String.eqb d d'
   | _, _ => false
   end.
 
